@@ -25,6 +25,7 @@ terms
   ("match", scrutinee_or_None, ((pattern, body), ...))        s |> match {..} ; None: the bare match function
        patterns: ("ptag", t) ("pvariant", t, x_or_None) ("pwild",) ("pvar", x) ("plit", literal-term)
                  ("prec", ((f, x), ...))                      {f = x, ..}
+                 ("pguard", pattern, cond)                    pattern if cond
   ("op", name, (args, ...))                                   name in + - * / % < <= > >= == != && || ! ++ @
                                                               "|>" (a |> f), "interp" ("..%{e}.." parts),
                                                               "dynget" (r."%{k}"), "&" (untyped code only)
@@ -266,6 +267,11 @@ def ty_src(t, lvl=2):
 # ------------------------------------------------------------------------------- std signatures
 
 _SIG_CACHE = {}
+# functions with value-dependent preconditions (allowed failures that cut the evaluation short)
+PARTIAL_STD = re.compile(r"^std\.(array\.(first|last|at|reduce_left|reduce_right|drop_first|drop_last|slice|range|range_step|"
+                         r"replicate|generate|split_at)|record\.(get|remove|remove_with_opts|apply_on)|"
+                         r"string\.(to_number|to_bool|substring|find|find_all|is_match|replace_regex|base64_decode)|"
+                         r"number\.(log|arccos|arcsin|sqrt|pow))$")
 STD_SKIP = re.compile(r"^std\.(contract|test|package)\.|^std\.(trace|deserialize|serialize|hash|cast|fail_with|FailWith)$"
                       r"|^std\.(number\.(pi|e))$")
 
@@ -476,6 +482,10 @@ class Printer:
             self.term(p[1], ATOM)
         elif k == "prec":
             self.w("{" + ", ".join("%s = %s" % (f, x) for f, x in p[1]) + "}")
+        elif k == "pguard":
+            self.pattern(p[1])
+            self.w(" if ")
+            self.term(p[2], 10)
         else:
             raise ValueError(p)
 
@@ -644,6 +654,9 @@ class Printer:
     @staticmethod
     def match_kind(arms):
         pk = {p[0] for p, _ in arms}
+        last = arms[-1][0][0] if arms else ""
+        if "pguard" in pk:
+            return "-guard" + ("" if last in ("pwild", "pvar") else "-no-default")
         if "plit" in pk:
             return "-literal" + ("" if pk & {"pwild", "pvar"} else "-no-default")
         if "prec" in pk:
@@ -704,9 +717,11 @@ def walk_terms(t, f, under_hole=False):
         return
     for c in t:
         if isinstance(c, tuple):
-            if c and c[0] in ("ptag", "pvariant", "pwild", "pvar", "plit", "prec", "dyn") and not (c[0] == "dyn" and len(c) == 1):
+            if c and c[0] in ("ptag", "pvariant", "pwild", "pvar", "plit", "prec", "pguard", "dyn") and not (c[0] == "dyn" and len(c) == 1):
                 if c[0] == "dyn" and len(c) == 2:
                     walk_terms(c[1], f, under_hole)
+                if c[0] == "pguard":
+                    walk_terms(c[2], f, under_hole)
                 continue
             walk_terms(c, f, under_hole)
 
@@ -1067,11 +1082,20 @@ class Gen:
         if k == "dyn":
             return self.hole(DYN, env, 1)
         if k == "arr":
+            if r.chance(3, 5) and T[1][0] in ("num", "str", "bool", "tvar", "enum"):
+                e = self.leaf(T[1], env, known)
+                if e is not None:
+                    return ("arr", (e,))
             return ("arr", ())
         if k == "dict":
+            lit = ("rec", ())
+            if r.chance(3, 5) and T[1][0] in ("num", "str", "bool", "tvar", "enum"):
+                e = self.leaf(T[1], env, True)
+                if e is not None:
+                    lit = ("rec", ((r.choice(FIELDS[:3]), e),))
             if known or has_tvars(T):
-                return ("rec", ())
-            return ("annt", ("rec", ()), T)
+                return lit
+            return ("annt", lit, T)
         if k == "fun":
             x = self.fresh("p")
             b = self.leaf(T[2], env + [(x, T[1], known)], known)
@@ -1259,6 +1283,7 @@ class Gen:
         need_default = open_tail or len(covered) < len(rows)
         parts = self.split(n, len(covered) + (1 if need_default else 0))
         arms = []
+        guarded = False
         for (tag, pt), p in zip(covered, parts):
             if pt is None:
                 pat, env2 = ("ptag", tag), env
@@ -1270,7 +1295,15 @@ class Gen:
             b = self.gen(T, env2, p, known)
             if b is None:
                 return None
+            if r.chance(1, 10):
+                cond = self.gen(BOOL, env2, 3, True)
+                if cond is not None:
+                    pat = ("pguard", pat, cond)      # a guarded arm does not count for exhaustiveness
+                    guarded = True
             arms.append((pat, b))
+        if guarded and not need_default:
+            need_default = True
+            parts = parts + [2]
         if need_default:
             b = self.gen(T, env, parts[-1], known)
             if b is None:
@@ -1295,7 +1328,7 @@ class Gen:
                     E = mk_enum([(t, self.gen_type(1, False, False) if r.chance(1, 2) else None)
                                  for t in r.shuffle(TAGS)[:r.range(1, 3)]])
                 scrut = self.gen(E, env, a, False)
-            arms = self.arms_for(E, T, env, b, known)
+            arms = self.arms_for(E, T, env, b, False)
             if scrut is None or arms is None:
                 return None
             if r.chance(1, 4):
@@ -1309,7 +1342,7 @@ class Gen:
                     "bool": [("bool", True), ("bool", False)]}[st[0]]
             lits = r.shuffle(lits)[:r.range(1, 2)]
             parts = self.split(b, len(lits) + 1)
-            bodies = [self.gen(T, env, p, known) for p in parts]
+            bodies = [self.gen(T, env, p, False) for p in parts]
             if scrut is None or None in bodies:
                 return None
             arms = [(("plit", l), bd) for l, bd in zip(lits, bodies)]
@@ -1323,7 +1356,7 @@ class Gen:
         R = mk_rec([(f, self.gen_type(1, False, False)) for f in r.shuffle(FIELDS)[:r.range(1, 2)]])
         scrut = self.gen(R, env, a, False)
         binds = [(f, self.fresh("m")) for f, _ in R[1]]
-        body = self.gen(T, env + [(x, ft, False) for (f, x), (_, ft) in zip(binds, R[1])], b, known)
+        body = self.gen(T, env + [(x, ft, False) for (f, x), (_, ft) in zip(binds, R[1])], b, False)
         if scrut is None or body is None:
             return None
         return ("match", scrut, ((("prec", tuple(binds)), body),))
@@ -1345,9 +1378,24 @@ class Gen:
     def s_dynget(self, T, env, n, known):
         if has_tvars(T):
             return None
+        r = self.rng
+        key = r.choice(FIELDS)
+        if r.chance(3, 4):
+            m = r.range(1, 3)
+            fs = [key] + r.shuffle([f for f in FIELDS if f != key])[:m - 1]
+            es = [self.gen(T, env, p, True) for p in self.split(n - 2, m)]
+            if None in es:
+                return None
+            self.features.add("dict:literal")
+            d = ("annt", ("rec", tuple(zip(r.shuffle(fs), es))), ("dict", T))
+            k = ("str", key)
+            if r.chance(1, 3):
+                x = self.fresh("v")
+                return ("let", x, None, k, ("op", "dynget", (d, ("var", x))))
+            return ("op", "dynget", (d, k))
         a, b = self.split(n - 1, 2)
         d = self.gen(("dict", T), env, a, False)
-        k = self.gen(STR, env, 1, True) if self.rng.chance(1, 3) else ("str", self.rng.choice(FIELDS))
+        k = self.gen(STR, env, 1, True) if r.chance(1, 3) else ("str", key)
         if d is None or k is None:
             return None
         return ("op", "dynget", (d, k))
@@ -1446,7 +1494,14 @@ class Gen:
         if not cands:
             return None
         full = [c for c in cands if c[3] > 0]
-        h, fty, metas, k, args, s = r.choice(full if full and r.chance(9, 10) else cands)
+        pool = full if full and r.chance(9, 10) else cands
+
+        def weight(c):
+            w = 1 if is_meta(peel(c[1], c[3])[1]) else 6     # a bare variable as result fits everything
+            if c[0][0] == "stdref" and PARTIAL_STD.search(c[0][1]):
+                w = max(1, w // 3)
+            return w
+        h, fty, metas, k, args, s = r.weighted([(c, weight(c)) for c in pool])
         self.fill_metas(metas, s, fty, env)
         term = h
         parts = self.split(n - 1, k) if k else []
@@ -1469,9 +1524,7 @@ class Gen:
             t = self.app_of(locals_, T, env, n, known)
             if t is not None:
                 return t
-        # a sample of the stdlib keeps the candidate search cheap and the choice spread out
-        sample = [self.std_index[r.below(len(self.std_index))] for _ in range(24)]
-        heads = [(("stdref", name), self.sigs[name]) for (name, _, _, _) in sample]
+        heads = [(("stdref", name), self.sigs[name]) for (name, _, _, _) in self.std_index]
         return self.app_of(heads, T, env, n, known)
 
     # ---- polymorphic and recursive let
@@ -1576,7 +1629,10 @@ class Gen:
                     return None
                 use = ("app", V(f), arg)
             else:
-                use = ("app", ("app", V(f), ("num", r.range(0, 4))), self.gen(STR, env2, max(1, n - 12), True))
+                sarg = self.gen(STR, env2, max(1, n - 12), True)
+                if sarg is None:
+                    return None
+                use = ("app", ("app", V(f), ("num", r.range(0, 4))), sarg)
         else:
             if which != 0:
                 return None
@@ -1611,17 +1667,25 @@ def _foralls(vs, t):
 
 def gen_valid(rng, sigs, size):
     """A program the generator believes to be well typed: `(<term> : T)`."""
-    g = Gen(rng, sigs, size)
-    for _ in range(20):
+    budget = max(2, size * 4 // 5)
+    best = None
+    for _ in range(12):
+        g = Gen(rng, sigs, size)
         # results that are data are evaluated deeply: prefer them at the top
         T = g.gen_type(2, fun_ok=rng.chance(1, 5))
-        e = g.gen(T, [], max(1, size - 1), True)
-        if e is not None:
-            break
-    else:
-        T, e = NUM, ("num", 1)
-    ast = ("annt", e, T)
-    return make_prog(ast, T, "valid", g.features)
+        e = g.gen(T, [], max(1, budget - 1), True)
+        if e is None:
+            continue
+        p = make_prog(("annt", e, T), T, "valid", g.features)
+        if p.size <= size and (best is None or p.size > best.size):
+            best = p
+        if size // 2 <= p.size <= size:
+            return p
+        if p.size > size:
+            budget = max(2, budget * 3 // 4)
+    if best is not None:
+        return best
+    return make_prog(("annt", ("num", 1), NUM), NUM, "valid", ())
 
 
 # ---- mutations
@@ -1854,8 +1918,7 @@ def gen_mutant(rng, sigs, size):
     """A valid program with one mutation.  It must be rejected by the typechecker or stay safe."""
     for _ in range(30):
         base = gen_valid(rng, sigs, size)
-        for _ in range(6):
-            what = rng.choice(MUTATIONS)
+        for what in rng.shuffle(MUTATIONS):
             ast = mutate(rng, base.ast, sigs, what)
             if ast is None or ast == base.ast:
                 continue
@@ -1907,7 +1970,24 @@ def annot_kind(prog, s, e):
     return "unknown"
 
 
+def text_label(src, s, e):
+    """Operation label for hand-written programs (no AST): only match expressions are told apart."""
+    t = src[s:e]
+    if not t.startswith("match"):
+        return "?"
+    arms = re.split(r",\s*(?=[^,]*=>)", t[t.find("{") + 1:t.rfind("}")])
+    pats = [a.split("=>")[0].strip() for a in arms if "=>" in a]
+    default = bool(pats) and bool(re.match(r"^(_|[a-z][A-Za-z0-9_]*)$", pats[-1]))
+    if any(re.search(r"\sif\s", p) for p in pats):
+        return "match-guard" + ("" if default else "-no-default")
+    if any(re.search(r"(^|\s)(-?\d|\"|true$|false$)", p) for p in pats):
+        return "match-literal" + ("" if default else "-no-default")
+    return "match-default" if default else "match-enum"
+
+
 def node_at(prog, s, e):
+    if not prog.nodes and prog.ast is None:
+        return text_label(prog.src, s, e)
     best = None
     for (a, b, lab) in prog.nodes:
         if a <= s and e <= b and (best is None or b - a < best[0]):
@@ -1949,6 +2029,9 @@ def classify(prog, line):
             return "violation", tag
         if where == "own" and pol == "+":
             return "violation", tag
+        if where == "hole" and pol == "-" and spans and spans[0][0] == "main" and region_of(prog, spans[0][1], spans[0][2]) == "typed":
+            # the context of a hole broke the hole's contract and the offending value sits in typed code
+            return "violation", "Blame-:hole-contract-broken-by-typed-code"
         if where == "unknown" and pol == "+":
             return "violation", tag
         return "allowed-error", tag
@@ -1975,50 +2058,51 @@ def classify(prog, line):
 # ---- regions of hand-written corpus programs (no AST): `( e : T )` and `( u | T )` groups
 
 def scan_regions(src):
-    """Typed / untyped regions of a program text, from its parenthesised annotations.  Outside of
-    every such group the program is untyped."""
+    """Typed / untyped regions of a program text, from its parenthesised annotations `(e : T)` and
+    `(u | T)` (written with spaces around the separator).  Outside of every such group the program
+    is untyped.  `let x : T = e` annotations are recognised as such (not as group annotations) but
+    give no region of their own: write hand-picked cases with parenthesised blocks."""
     typed, untyped, own, holes = [], [], [], []
-    stack = []        # (open_char, offset, [separator offsets at depth 0 of this group])
+    stack = []        # [open_token, offset, [(offset, char) of ' : ', ' | ', bare '=' directly inside the group]]
+    instr_stack = []
     i, n = 0, len(src)
-    instr = 0
+    instr = False
     while i < n:
         c = src[i]
         if instr:
             if c == "\\":
                 i += 2
                 continue
-            if c == "%" and src.startswith("%{", i):
-                stack.append(("%{", i, []))
-                instr_stack.append(instr)
-                instr = 0
+            if src.startswith("%{", i):
+                stack.append(["%{", i, []])
+                instr_stack.append(True)
+                instr = False
                 i += 2
                 continue
             if c == '"':
-                instr = 0
+                instr = False
             i += 1
             continue
         if c == '"':
-            instr = 1
-            if "instr_stack" not in locals():
-                instr_stack = []
-        elif c in "([{":
-            if src.startswith("[|", i):
-                stack.append(("[|", i, []))
-                i += 2
-                continue
-            stack.append((c, i, []))
-        elif c == "|" and src.startswith("|]", i):
+            instr = True
+        elif src.startswith("[|", i):
+            stack.append(["[|", i, []])
+            i += 2
+            continue
+        elif src.startswith("|]", i):
             if stack and stack[-1][0] == "[|":
                 stack.pop()
             i += 2
             continue
+        elif c in "([{":
+            stack.append([c, i, []])
         elif c in ")]}":
             if stack:
                 o, a, seps = stack.pop()
                 if o == "%{":
                     instr = instr_stack.pop()
-                elif o == "(" and c == ")" and seps:
-                    sep, ch = seps[0]
+                elif o == "(" and c == ")" and seps and seps[-1][1] != "=":
+                    sep, ch = seps[-1]
                     ts = sep + 1
                     while ts < i and src[ts] == " ":
                         ts += 1
@@ -2028,9 +2112,11 @@ def scan_regions(src):
                     else:
                         untyped.append((a, i + 1))
                         holes.append((ts, i))
-        elif c in ":|" and stack and stack[-1][0] == "(" and src[i - 1:i] == " " and src[i + 1:i + 2] == " ":
-            if not (c == "|" and src[i + 1:i + 2] == ">"):
+        elif stack and stack[-1][0] == "(":
+            if c in ":|" and src[i - 1:i] == " " and src[i + 1:i + 2] == " ":
                 stack[-1][2].append((i, c))
+            elif c == "=" and src[i - 1:i] not in ("=", "<", ">", "!") and src[i + 1:i + 2] not in ("=", ">"):
+                stack[-1][2].append((i, "="))
         i += 1
     return typed, untyped, own, holes
 
@@ -2054,3 +2140,309 @@ def load_corpus():
                 continue
             out.append(corpus_prog(line))
     return out
+
+
+# ----------------------------------------------------------------------------------------- stream
+
+def run_programs(exe, progs):
+    return S.run_robust(exe, ["ev,full\t" + S.esc(p.src) for p in progs])
+
+
+def shrink_candidates(ast):
+    """Single-step simplifications: replace a node by one of its term children, drop an array
+    element / record field / let.  Ill-typed candidates are harmless: the typechecker rejects them."""
+    out = []
+    for (path, n, _) in all_nodes(ast):
+        if not path:
+            continue
+        for (_, c) in _children(n):
+            out.append(replace_at(ast, path, c))
+        k = n[0]
+        if k == "arr" and n[1]:
+            for i in range(len(n[1])):
+                out.append(replace_at(ast, path, ("arr", n[1][:i] + n[1][i + 1:])))
+        if k in ("num", "str", "bool"):
+            continue
+        for lit in (("num", 1), ("str", "a"), ("bool", True), ("arr", ())):
+            out.append(replace_at(ast, path, lit))
+    return out
+
+
+def shrink(exe, prog, key, rounds=6, width=48):
+    """Greedy: keep a smaller program as long as it is still a violation with the same key."""
+    if prog.ast is None:
+        return prog, None
+    best, best_line = prog, None
+    for _ in range(rounds):
+        cands, seen = [], set()
+        for a in shrink_candidates(best.ast):
+            try:
+                p = make_prog(a, best.ty, best.kind, best.features)
+            except (ValueError, KeyError, TypeError):
+                continue
+            if p.size < best.size and p.src not in seen:
+                seen.add(p.src)
+                cands.append(p)
+        cands.sort(key=lambda p: p.size)
+        cands = cands[:width]
+        if not cands:
+            break
+        outs = run_programs(exe, cands)
+        nxt = None
+        for p, line in zip(cands, outs):
+            v, d = classify(p, line)
+            if v == "violation" and d == key:
+                nxt, best_line = p, line
+                break
+        if nxt is None:
+            break
+        best = nxt
+    return best, best_line
+
+
+def pick_size(rng, max_size):
+    lo = min(5, max_size)
+    if rng.chance(1, 5):
+        return rng.range(lo, max(lo, max_size // 3))
+    return rng.range(max(lo, max_size // 3), max_size)
+
+
+def run_stream(ck, exe, n_valid, n_mutants, max_size, batch=2000, do_shrink=True):
+    """Corpus first, then `n_valid` generated programs and `n_mutants` mutants; every answer of the
+    real typechecker + interpreter is judged by `classify`.  Returns a summary dict."""
+    sigs = std_signatures(exe)
+    rng = core.SplitMix64(ck.seed * 1000003 + 1)
+    t0 = time.time()
+    summary = {"valid": 0, "valid_accepted": 0, "mutants": 0, "mutants_rejected": 0, "violations": 0, "parse_errors_valid": 0,
+               "harness_s": 0.0, "programs": 0}
+    plan = [("corpus", None)] + [("valid", None)] * n_valid + [("mutant", None)] * n_mutants
+    corpus = load_corpus()
+    todo = list(corpus)
+    kinds_left = ["valid"] * n_valid + ["mutant"] * n_mutants
+    pos = 0
+    del plan
+    sampled = {"ok": 0, "rejected": 0, "allowed-error": 0, "untyped-origin": 0, "mutant-accepted": 0}
+    while todo or pos < len(kinds_left):
+        while len(todo) < batch and pos < len(kinds_left):
+            size = pick_size(rng, max_size)
+            if kinds_left[pos] == "valid":
+                p = gen_valid(rng, sigs, size)
+            else:
+                p = gen_mutant(rng, sigs, size)
+            todo.append(p)
+            pos += 1
+        progs, todo = todo[:batch], todo[batch:]
+        th = time.time()
+        outs = run_programs(exe, progs)
+        summary["harness_s"] += time.time() - th
+        for p, line in zip(progs, outs):
+            verdict, detail = classify(p, line)
+            stream = "mutant" if p.kind.startswith("mutant") else p.kind
+            summary["programs"] += 1
+            ck.case(key=p.src, nontrivial=(verdict != "rejected" and p.size >= 3))
+            ck.hist("c01gen_verdict:" + stream, verdict)
+            cls = "OK" if line.startswith("OK") else (re.match(r"ERR (\S+)", line) or [None, "?"])[1]
+            ck.hist("c01gen_outcome_class:" + stream, cls)
+            if verdict in ("allowed-error", "untyped-origin", "violation"):
+                ck.hist("c01gen_detail:" + verdict, detail)
+            ck.hist("c01gen_size", "%d-%d" % (p.size // 10 * 10, p.size // 10 * 10 + 9))
+            if stream != "corpus":
+                for f in p.features:
+                    ck.hist("c01gen_constructs:" + stream, f)
+                for f in p.std_used:
+                    ck.hist("c01gen_stdlib", f)
+            if stream == "valid":
+                summary["valid"] += 1
+                if verdict != "rejected":
+                    summary["valid_accepted"] += 1
+                else:
+                    ck.hist("c01gen_valid_rejected", detail)
+                    if detail == "Parse":
+                        summary["parse_errors_valid"] += 1
+                        ck.sample("GENERATOR BUG (parse error in the valid stream): %s => %s" % (p.src, line[:200]), limit=40)
+                    elif sampled["rejected"] < 3:
+                        sampled["rejected"] += 1
+                        ck.sample("valid stream, rejected by the typechecker: %s => %s" % (p.src[:600], line[:160]), limit=40)
+            elif stream == "mutant":
+                summary["mutants"] += 1
+                what = p.kind.split(":", 1)[1]
+                ck.hist("c01gen_mutation_kinds", what)
+                if verdict == "rejected":
+                    summary["mutants_rejected"] += 1
+                    ck.hist("c01gen_mutants_rejected_by_kind", what)
+                    if detail == "Parse":
+                        ck.sample("GENERATOR BUG (parse error in a mutant): %s => %s" % (p.src, line[:200]), limit=40)
+                else:
+                    ck.hist("c01gen_mutants_accepted_by_kind", what + ":" + verdict)
+                    if sampled["mutant-accepted"] < 2:
+                        sampled["mutant-accepted"] += 1
+                        ck.sample("mutant (%s) accepted, %s: %s => %s" % (what, verdict, p.src[:600], line[:160]), limit=40)
+            if verdict in sampled and sampled[verdict] < 2 and stream == "valid" and verdict != "rejected":
+                sampled[verdict] += 1
+                ck.sample("valid stream, %s %s: %s => %s" % (verdict, detail, p.src[:600], line[:160]), limit=40)
+            if verdict == "crash":
+                ck.hist("crash_or_panic", detail + ":" + stream)
+                ck.sample("crash/panic (%s): %s => %s" % (stream, p.src[:800], line[:200]), limit=40)
+            if verdict == "violation":
+                summary["violations"] += 1
+                key = detail
+                ck.hist("c01gen_violation_keys", key)
+                small, small_line = (p, None)
+                if do_shrink and key not in summary.setdefault("reported_keys", set()):
+                    try:
+                        small, small_line = shrink(exe, p, key)
+                    except Exception as ex:     # shrinking is best effort
+                        ck.log("shrink failed:", repr(ex))
+                summary.setdefault("reported_keys", set()).add(key)
+                src = small.src if small_line else p.src
+                text = "a program accepted by the typechecker raises %s in statically typed code (%s stream): %s => %s" % (
+                    key, p.kind, src[:300], (small_line or line)[:200])
+                ck.violation(key, text, {
+                    "program": src, "impl_outcome": small_line or line,
+                    "original_program": p.src, "original_outcome": line, "stream": p.kind,
+                    "expected": "rejected by the typechecker, or no TypeErr/NotAFunc/FieldMissing/NonExhaustive/UnboundId/"
+                                "TailAccess with a position inside a typed region and no positive blame on the block's own annotation",
+                    "regions": (small if small_line else p).regions(),
+                    "how_to_replay": "printf 'ev,full\\t%s\\n' '<program>' | .build/target/debug/c01"})
+    summary["wall_s"] = round(time.time() - t0, 1)
+    summary["harness_s"] = round(summary["harness_s"], 1)
+    if summary["valid"]:
+        rate = 100.0 * summary["valid_accepted"] / summary["valid"]
+        ck.hist("c01gen_rates", "valid accepted %%: %.1f" % rate)
+        summary["valid_accept_rate"] = round(rate, 1)
+    if summary["mutants"]:
+        rate = 100.0 * summary["mutants_rejected"] / summary["mutants"]
+        ck.hist("c01gen_rates", "mutants rejected %%: %.1f" % rate)
+        summary["mutant_reject_rate"] = round(rate, 1)
+    if summary["programs"]:
+        summary["ms_per_program_harness_wall"] = round(1000.0 * summary["harness_s"] / summary["programs"], 1)
+    summary["reported_keys"] = sorted(summary.get("reported_keys", ()))
+    ck.coverage["c01gen"] = dict(summary)
+    ck.log("c01 generator: %s" % summary)
+    return summary
+
+
+# ------------------------------------------------------------------------------ standalone driver
+
+class FakeCk:
+    """The few methods of core.Check that run_stream uses, printing instead of writing evidence."""
+
+    def __init__(self, seed):
+        self.seed = seed
+        self.stats = {}
+        self.samples = []
+        self.violations = []
+        self.coverage = {}
+        self.evaluations = 0
+        self.distinct = set()
+        self.t0 = time.time()
+
+    def log(self, *a):
+        print("[c01gen %6.1fs]" % (time.time() - self.t0), *a, flush=True)
+
+    def case(self, key=None, nontrivial=True):
+        self.evaluations += 1
+        if nontrivial and key is not None:
+            self.distinct.add(hash(key))
+
+    def hist(self, name, key, n=1):
+        h = self.stats.setdefault(name, {})
+        h[str(key)] = h.get(str(key), 0) + n
+
+    def sample(self, s, limit=8):
+        if len(self.samples) < limit:
+            self.samples.append(s)
+
+    def violation(self, key, text, replay_obj, no_input=False):
+        if key not in [v[0] for v in self.violations]:
+            self.violations.append((key, text, replay_obj))
+
+    def obligation(self, name, kind, ok, detail=""):
+        print("OBLIGATION", name, kind, ok, detail[:300])
+        return ok
+
+
+def self_test(exe=None):
+    """Does the oracle have teeth?  Fabricated answer lines and (if exe is given) programs known to
+    misbehave must be classified as violations, legitimate ones must not.  Returns failures."""
+    fails = []
+    p = corpus_prog('((let f = fun x => x + 1 in ((f "a") | Number)) : Number)')
+    own = "main:%d-%d" % p.own_annots[0]
+    hole = "main:%d-%d" % p.hole_annots[0]
+    fab = [
+        ("ERR TypeErr pos=main:19-24,main:19-20,main:32-35 -- (+) expects Number as argument 1", "violation"),
+        ("ERR TypeErr pos=main:30-35,main:32-35 -- string/length expects String", "untyped-origin"),
+        ("ERR NotAFunc pos=std:3373-3388 -- not a function", "violation"),
+        ("ERR TypeErr pos=internals:10-20 -- x", "violation"),
+        ("ERR Blame+ pos=main:2-5 label=%s pol=+ path=0 argpos=main:2-5 -- type=Number diag=[]" % own, "violation"),
+        ("ERR Blame- pos=main:2-5 label=%s pol=- path=0 argpos=main:2-5 -- type=Number diag=[]" % own, "allowed-error"),
+        ("ERR Blame+ pos=main:30-35 label=%s pol=+ path=0 argpos=main:30-35 -- type=Number diag=[]" % hole, "allowed-error"),
+        ("ERR Blame- pos=main:10-12 label=%s pol=- path=1 argpos=main:10-12 -- type=Number -> Number diag=[]" % hole, "violation"),
+        ("ERR Blame- pos=internals:2510-2511 label=std:3373-3388 pol=- path=1 argpos=internals:2510-2511 -- type=NonEmpty -> Dyn diag=[]", "allowed-error"),
+        ("ERR TailAccess pos=main:10-12 label=%s pol=+ path=1 argpos=main:10-12 -- polymorphic tail access" % own, "violation"),
+        ("ERR TailAccess pos=main:30-32 label=%s pol=+ path=1 argpos=main:30-32 -- polymorphic tail access" % hole, "allowed-error"),
+        ("ERR FieldMissing pos=main:2-20,main:3-10 -- field b ((.))", "violation"),
+        ("ERR FieldMissing pos=main:2-20,main:3-10 -- field b (record/get)", "allowed-error"),
+        ("ERR NonExhaustive pos=main:5-20 -- non exhaustive", "violation"),
+        ("ERR UnboundId pos=main:5-8 -- unbound x", "violation"),
+        ("ERR DivByZero pos=main:1-6 -- division by zero", "allowed-error"),
+        ("ERR Budget pos=internals:2377-2523 -- verif: step budget exhausted", "allowed-error"),
+        ("ERR Typecheck -- TypecheckErrorData", "rejected"),
+        ("ERR Panic -- boom", "crash"),
+        ("OK #1", "ok"),
+    ]
+    for line, want in fab:
+        got = classify(p, line)
+        if got[0] != want:
+            fails.append("fabricated %r: expected %s, got %s" % (line[:70], want, got))
+    if exe:
+        real = [
+            # the untyped context calls a typed closure with a wrong argument (known separate issue):
+            # must be *seen* by the oracle, which is why the generator never produces it
+            ('((let f = fun x => x + 1 in ((f "a") | Number)) : Number)', "violation"),
+            ('([10 |> match { 1 => 0 }] : Array Number)', "violation"),
+            ("((let v : [| 'A Number, 'B |] = 'A 0 in v |> match { 'A x if x > 0 => x, 'B => 0 }) : Number)", "violation"),
+            ('(("a" | Number) + 1 : Number)', "allowed-error"),
+            ('((1 + "a" | Number) : Number)', "untyped-origin"),
+            ('(%string/length% (1 | Dyn) : Number)', "rejected"),
+            ('(std.array.first [] : Number)', "allowed-error"),
+            ('((let d : {_ : Number} = {a = 1} in d."%{"b"}") : Number)', "allowed-error"),
+            ('((1 + 1) : Number)', "ok"),
+        ]
+        progs = [corpus_prog(s) for s, _ in real]
+        for pr, (src, want), line in zip(progs, real, run_programs(exe, progs)):
+            got = classify(pr, line)
+            if got[0] != want:
+                fails.append("program %r => %r: expected %s, got %s" % (src, line[:100], want, got))
+    return fails
+
+
+def main(argv):
+    if len(argv) > 1 and argv[1] == "--selftest":
+        fails = self_test(core.harness_bin("c01"))
+        print("\n".join(fails) if fails else "oracle self test: ok")
+        return 1 if fails else 0
+    n = int(argv[1]) if len(argv) > 1 else 300
+    seed = int(argv[2]) if len(argv) > 2 else 1
+    max_size = int(argv[3]) if len(argv) > 3 else 40
+    exe = core.harness_bin("c01")
+    ck = FakeCk(seed)
+    summary = run_stream(ck, exe, n, n // 2, max_size)
+    for name in sorted(ck.stats):
+        h = ck.stats[name]
+        print("== %s" % name)
+        for k, v in sorted(h.items(), key=lambda kv: (-kv[1], kv[0]))[:80]:
+            print("   %6d  %s" % (v, k))
+    print("== samples")
+    for s in ck.samples:
+        print("   " + s)
+    print("== violations (%d distinct keys)" % len(ck.violations))
+    for key, text, obj in ck.violations:
+        print("   KEY %s\n      program: %s\n      outcome: %s\n      original: %s\n      regions: %s" % (
+            key, obj["program"], obj["impl_outcome"][:300], obj["original_program"][:1500], obj["regions"]))
+    print("== summary", summary)
+    return 0
+
+
+if __name__ == "__main__":
+    sys.exit(main(sys.argv))
